@@ -68,7 +68,8 @@ def sh(cmd, timeout, cwd=None, mem_kb=MEM_KB):
 
     def lim():
         import resource
-        resource.setrlimit(resource.RLIMIT_AS, (mem_kb * 1024, mem_kb * 1024))
+        if mem_kb:
+            resource.setrlimit(resource.RLIMIT_AS, (mem_kb * 1024, mem_kb * 1024))
         os.setsid()
 
     try:
